@@ -315,6 +315,10 @@ def run(chk):
                                    chk.must_fail("twin:equations-do-not-force-everything-live", wf(True, D), z3.ForAll([b_, x_], F_live(True, Pfam, b_, x_)))))
     from .C09_forward import run_forward
     run_forward(chk, e)
+    # CFG.analyze: the two analyses are run over ALL blocks with include_unreachable=True (liveness
+    # and assignment alike), so code behind never-taken edges keeps its variables live / assigned
+    from .C08 import analyze_section
+    chk.section("cfg-analyze", lambda: analyze_section(chk))
     chk.expected_min_obligations = 20
     chk.assumptions += [
         "BB.predecessors / dummy_predecessors are the inverse relations of successors / dummy_successors (established by CFG.new_bb/link/dummy_link)",
